@@ -30,6 +30,8 @@ def generate(seed: int, tier: str) -> dict:
     st = Streams(seed)
     cfg = gen.swarm(st("swarm"), tier, profile="scope" if st("swarm").random() < 0.4 else "edit")
     cfg["perturb"] = False
+    # VALUEs that carry their own end-of-line comment (`2 # note`): part of "all values"
+    cfg["commented_values"] = True
     from .props import MAX_DOC_LINES
 
     doc = gen.DocGen(st("doc"), cfg, docnum=seed % 1000).document()
@@ -147,6 +149,7 @@ def execute(case: dict):
                   "header": bool(dec0.doc.comments()) and dec0.doc.comments()[0][1] == 0}
     base_facts["trailing_comment"] = _has_trailing_comment(dec0)
     base_facts["multiline_value"] = any("\n" in (o.get("value") or "") for o in ops)
+    base_facts["commented_value"] = any("#" in (o.get("value") or "") for o in ops)
     base_facts["inline_target"] = dec0.shape.editable and b"\n" not in dec0.doc.data[dec0.shape.target.start_byte:dec0.shape.target.end_byte]
     for mode in ("live", "restart"):
         f = dict(base_facts, mode=mode)
